@@ -165,7 +165,7 @@ struct DiffOps {
       default: out.tag("?"); break;
     }
   }
-  static constexpr OpDef def = {Tag::lie, "E", kDiffNFn, kDiffFn, 8, 8, 0, 1, &prep, &run};
+  static constexpr OpDef def = {Tag::lie, "E", kDiffNFn, kDiffFn, 10, 8, 0, 1, &prep, &run};
 };
 
 #define OPS_TAG3(NAME, BASE)                                  \
